@@ -153,11 +153,16 @@ def check_decode_rejects(ctx, case):
     base = _set_vt(ctx, w, n)
     if base is None:
         return
+    # the width a real caller passes: exactly what the walk carries (fast mode) / what its value needs (normal mode)
+    fast = case["fast"] and 3 not in set(G.out_degrees(acc).tolist())
+    digits = oracles.walk_digits(w, acc, start)
+    exact = len(oracles.fast_bits(digits)) if fast else max(oracles.digits_value(digits).bit_length(), 1)
+    widths = [exact, exact, 4 * len(w) + 8]
     ok = monitored(dsw.decode, 10 ** 7, w, 4 * len(w) + 2, acc, start, vt_check=base, is_faster=False)
     if ok.kind != "ok":
         ctx.fail("decode-rejects-own-check", "decode(walk %s, vt_check=%s) %s" % (w, base, ok.describe()))
     for kind, pos, ch, t in neighbours(w):
-        out = monitored(dsw.decode, 10 ** 7, t, 4 * len(w) + 8, acc, start, vt_check=base, is_faster=case["fast"])
+        out = monitored(dsw.decode, 10 ** 7, t, ctx.rng.choice(widths), acc, start, vt_check=base, is_faster=fast)
         ctx.evaluations += 1
         if out.kind == "ok":
             ctx.fail("decode-accepts-edited-strand", "decode(%r, vt_check=%s of %r) returned (edit %s%d%s)" % (t, base, w, kind, pos, ch))
